@@ -34,6 +34,8 @@ class X(operator.Operator):
             g: chemical shift of the compartments (kHz)
         """
         params = common.map_arrays(tau=tau, T1=T1, T2=T2, g=g)
+        if np.any(np.asarray(tau) < 0):
+            raise ValueError("Cannot have negative time")
 
         if common.isscalar(khi):
             # if khi is scalar, assume 2 compartments
